@@ -31,7 +31,16 @@ def gen_cases(tier, seed, configs):
         upper = r.choice([2, 2, 1, 0, 3]) if not periodic else r.choice([1, 1, 0, 2])
         b = "build bs=%d mode=%d" % (bs, mode)
         runs = [("plain", "exec seq flags=63 upper=%d" % upper), ("seqc", "exec seqc flags=63 upper=%d seed=%d" % (upper, r.randrange(10 ** 6)))]
-        for j in range(3):
+        big = (k == 1)
+        if big:
+            # one crowded leaf: its in-leaf count n^2 - n does not fit 32 bits
+            H = min(H, 3)
+            lim = 1 << (H - 1)
+            crowd = tuple(r.randrange(lim) for _ in range(D))
+            parts = [crowd] * 46400 + [tuple(r.randrange(lim) for _ in range(D)) for _ in range(20)]
+            kind, bs, mode = "crowded_leaf", 1, 0
+            b = "build bs=1 mode=0"
+        for j in range(0 if big else 3):
             runs.append(("ompc%d" % j, "exec ompc flags=63 upper=%d sched=%d seed=%d workers=%d" % (upper, r.choice([0, 1, 2, 2, 3]), r.randrange(1, 10 ** 6), r.choice([1, 2, 3, 5, 8, 16]))))
         body = ["spec elems flags=63 upper=%d" % upper]
         for name, cmd in runs:
